@@ -559,6 +559,11 @@ def gen_jobs(ctx):
         if fam == "prefix" or (fam in ("small", "curated", "unary", "nullable2") and rng.random() < 0.25):
             opts["consume"] = False
         jobs.append({"fam": fam, "name": name, "gtext": text, "opts": opts, "inputs": ins})
+        if fam in ("corpus", "unary"):
+            # the grammars on which order-dependent GLR behaviour was seen before: also under GLRParser's
+            # default options, whatever the random draw above gave
+            jobs.append({"fam": fam, "name": name + "_dflt", "gtext": text, "inputs": ins,
+                         "opts": {"tables": 1, "ps": False, "pse": False, "lexdis": False}})
     return jobs
 
 
